@@ -54,6 +54,67 @@ structure Denotes (L : Lineage) (R : Rel) : Prop where
   names : L.names = R.map (·.1)
   get : ∀ n, dictGet? L.srcOf n = dictGet? R n
   tables : L.tables = relTables R
+  std : ∃ cols, L.allStd = .ok cols ∧ cols.map (·.name) = R.map (·.1)
+
+theorem mk_stdOf : ∀ (data : List (SCol × List SrcCol)) (l : Lineage),
+    (mkLineage data l).stdOf = data.foldl (fun m p => dictSet m p.1.name p.1) l.stdOf
+  | [], l => rfl
+  | (c, s) :: r, l => by simp [mkLineage, mk_stdOf r]
+
+theorem stdOf_inv : ∀ (data : List (SCol × List SrcCol)) (d : List (String × SCol)),
+    (∀ k v, dictGet? d k = some v → v.name = k) →
+    ∀ k v, dictGet? (data.foldl (fun m p => dictSet m p.1.name p.1) d) k = some v → v.name = k
+  | [], d, h, k, v, hk => h k v hk
+  | (c, s) :: r, d, h, k, v, hk => by
+    refine stdOf_inv r (dictSet d c.name c) ?_ k v hk
+    intro k' v' h'
+    rw [C15.dictGet_dictSet] at h'
+    by_cases e : c.name = k'
+    · simp [e] at h'; subst h'; exact e
+    · have : (c.name == k') = false := by simpa using e
+      simp [this] at h'; exact h k' v' h'
+
+theorem stdOf_mem : ∀ (data : List (SCol × List SrcCol)) (d : List (String × SCol)) (k : String),
+    (k ∈ data.map (·.1.name) ∨ (dictGet? d k).isSome = true) →
+    (dictGet? (data.foldl (fun m p => dictSet m p.1.name p.1) d) k).isSome = true
+  | [], d, k, h => by
+    rcases h with h | h
+    · simp at h
+    · exact h
+  | (c, s) :: r, d, k, h => by
+    refine stdOf_mem r (dictSet d c.name c) k ?_
+    rw [C15.dictGet_dictSet]
+    by_cases e : c.name = k
+    · right; simp [e]
+    · have he : (c.name == k) = false := by simpa using e
+      rcases h with h | h
+      · simp only [List.map_cons, List.mem_cons] at h
+        rcases h with h | h
+        · exact absurd h.symm e
+        · left; exact h
+      · right; simpa [he] using h
+
+theorem mapM_std (f : String → Option SCol) : ∀ (ns : List String), (∀ n ∈ ns, ∃ c, f n = some c ∧ c.name = n) →
+    ∃ cols, ns.mapM (fun n => match f n with | some c => (.ok c : Except Err SCol) | none => .error (.py .KeyError)) = .ok cols
+      ∧ cols.map (·.name) = ns
+  | [], _ => ⟨[], rfl, rfl⟩
+  | n :: r, h => by
+    obtain ⟨c, hc, hn⟩ := h n (by simp)
+    obtain ⟨cols, e, hm⟩ := mapM_std f r (fun x hx => h x (by simp [hx]))
+    exact ⟨c :: cols, by simp [List.mapM_cons, hc, e, bind, Except.bind, pure, Except.pure], by simp [hn, hm]⟩
+
+/-- the standard columns of a lineage object built from `data`: one per column, with the column's name -/
+theorem allStd_mk (data : List (SCol × List SrcCol)) :
+    ∃ cols, (mkLineage data Lineage.empty).allStd = .ok cols ∧ cols.map (·.name) = data.map (·.1.name) := by
+  have hn : (mkLineage data Lineage.empty).names = data.map (·.1.name) := by rw [C16.mk_names]; simp [Lineage.empty]
+  unfold Lineage.allStd
+  rw [hn, mk_stdOf]
+  refine mapM_std (fun n => dictGet? (data.foldl (fun m p => dictSet m p.1.name p.1) Lineage.empty.stdOf) n) _ ?_
+  intro n hnm
+  have hsome := stdOf_mem data Lineage.empty.stdOf n (Or.inl hnm)
+  cases hg : dictGet? (data.foldl (fun m p => dictSet m p.1.name p.1) Lineage.empty.stdOf) n with
+  | none => simp [hg] at hsome
+  | some c => exact ⟨c, rfl, stdOf_inv data _ (by simp [Lineage.empty, dictGet?]) n c hg⟩
 
 /-- the upstream tables of a lineage object depend only on the source lists it was built from -/
 theorem mk_tables : ∀ (data : List (SCol × List SrcCol)) (l : Lineage),
@@ -70,7 +131,12 @@ theorem denotes_base (c : CreateTable) : Denotes (byCreateTable c) (baseRel c) :
   ⟨by rw [C16.byCreate_names]; simp [baseRel], C16.byCreate_srcOf c, by
     unfold byCreateTable relTables
     rw [mk_tables, go_srcs]
-    simp [Lineage.empty, baseRel, Function.comp_def]⟩
+    simp [Lineage.empty, baseRel, Function.comp_def], by
+    obtain ⟨cols, e, hm⟩ := allStd_mk (byCreateTable.go c c.columns 0)
+    refine ⟨cols, e, ?_⟩
+    rw [hm]
+    have := congrArg (List.map (·.1)) (C16.go_names c c.columns 0)
+    simpa [baseRel, List.map_map, Function.comp_def] using this⟩
 
 /-- `d[k] = v` for successive pairs with pairwise distinct keys, none of them in `d`: the pairs are appended -/
 theorem foldl_dictSet_fresh {κ ν : Type} [BEq κ] [LawfulBEq κ] :
@@ -111,7 +177,9 @@ theorem number_srcs : ∀ (R : Rel) (i : Nat), (C16.number R i).map (·.2) = R.m
   | (n, s) :: r, i => by simp [C16.number, number_srcs r]
 
 theorem denotes_mk (R : Rel) (i : Nat) (h : (R.map (·.1)).Nodup) : Denotes (mkLineage (C16.number R i) Lineage.empty) R := by
-  refine ⟨?_, ?_, by rw [mk_tables, number_srcs]; rfl⟩
+  refine ⟨?_, ?_, by rw [mk_tables, number_srcs]; rfl, by
+    obtain ⟨cols, e, hm⟩ := allStd_mk (C16.number R i)
+    exact ⟨cols, e, by rw [hm]; exact C16.number_names R i⟩⟩
   · rw [C16.mk_names, C16.number_names]; simp [Lineage.empty]
   · intro n
     rw [C16.mk_srcOf]
